@@ -19,6 +19,24 @@ CLAIMED = {
     "C14": ("Lean 4 round-trip theorem decode(toJson g) = g for all graphs (nested lists/sets by mutual structural induction) + pretty-print completeness/sortedness theorems + differential correspondence against serde_json::to_value and pretty_print()",
             "Kernel-checked: decoding the JSON model reconstructs exactly the graph (C14_json_roundtrip), nodes once in index order with id = index, edges ascending by sink under the graph invariant, type tags, pretty attribute lines are a permutation of the attributes sorted by name (strictly, with unique names), block structure of the pretty form. Tie: generated graphs (0-40 nodes, > 8 edges per node, values nested to depth 3 with quotes/control/non-ASCII characters, syntax and graph node references) serialised by the real code and compared with the model; plus an independent decoder of the real JSON and a text round trip as direct oracle. JSON string escaping is serde_json's (oracle); Rust's {:?} escaping of non-ASCII is assumed printable.",
             "DESIGN.md section 7, C14"),
+    "C01": ("Lean 4 theorems over the strict interpreter model (driver = stanzas in file order x matches in order, first failure wins; statement rules) + differential correspondence of File::execute (strict) against the model on generated programs x trees",
+            "Kernel-checked for every file, tree and match list: strict execution is exactly the sequence of block executions 'for each stanza in file order, for each match in order' (C01_blocks_once_per_match_in_order), the first failing block is the result, blocks start from cleared locals, capture values by quantifier, if/for unfolding rules. The statement-level semantics is a code-shaped model whose agreement with the Rust executor is checked differentially: outcome class and, on success, the whole graph including node numbering, on generated programs covering the whole statement/expression grammar (incl. injected runtime faults) x generated/corpus Python trees. A refinement proof to a separate reference specification is not yet done; the claim is partial there.",
+            "DESIGN.md section 7, C01"),
+    "C02": ("Lean 4 theorems relating the strict and lazy interpreter models (shared capture/scan/graph-operation mechanisms) + differential correspondence of each mode against its model + strict-vs-lazy comparison on the implementation up to graph isomorphism",
+            "Kernel-checked: the lazy scan collection loop computes the strict loop's result (C02_scan_collect_agree), both modes use one capture-value function, one match selection and the same failing graph operations; out-of-range $n is the same error in both modes. The full agreement statement C02_full is stated, not proved; it is covered differentially: in-fragment generated programs (a third with an injected fault) x trees, each mode compared with its model (outcome, graph) and strict compared with lazy on the real code (success coincides, graphs isomorphic, order-independent failures fail in both, no panic).",
+            "DESIGN.md section 7, C02"),
+    "C09": ("Lean 4 proof that every successful program term only extends the graph (Prog.run_extends, by induction on the effect-separated program, instantiated for strict and lazy execute_into) + differential histories of execute_into calls",
+            "Kernel-checked for every file, tree, matches, globals and initial graph: a successful strict or lazy execute_into leaves every existing node, edge and attribute binding in place, keeps indices (new nodes after existing ones) and keeps edge lists strictly ascending, i.e. at most one edge per ordered pair (C09_execute_into_extends_strict/lazy); re-creating an edge leaves the graph unchanged; an equal re-assignment is a no-op and a different one fails the run. Tie: histories of 1-3 execute_into calls in either mode on a pre-populated graph with graph nodes passed back as globals, compared with the model from the same initial graph, plus a direct before ⊑ after check.",
+            "DESIGN.md section 7, C09"),
+    "C11": ("Lean 4 proof of cancellation simulation for every program term (Prog.cancel_sim, induction on the effect-separated program; only `poll` can see the flag), instantiated for whole strict and lazy runs + exhaustive cancellation at every poll on the implementation",
+            "Kernel-checked for every file, tree, matches, globals, mode and every k >= 1: if the uncancelled run performs at least k polls, the run whose flag fires at poll k returns exactly the Cancelled error (unwrapped, no other error, no success) after exactly k polls; otherwise the flag changes nothing (C11_cancel_at_k_strict/lazy); with_context never wraps Cancelled; every statement polls first. Tie: for generated programs the real executor is cancelled at EVERY poll k = 1..N in both modes (result must be top-level Cancelled with k polls), a never-signalling counting flag must reproduce the NoCancellation result, and the model's poll count must not exceed the implementation's (no mandatory poll lost).",
+            "DESIGN.md section 7, C11"),
+    "C15": ("Lean 4 theorems on the debug-attribute algebra (stripping commutes with every graph operation on other names, debug additions are invisible after stripping, new-edge-only location attribute) + differential runs of both configurations in both modes",
+            "Kernel-checked: adding a configured debug attribute is invisible after stripping; any other attribute assignment commutes with stripping with the same conflict verdict; a newly created edge gets exactly the location attribute and an existing edge is untouched, so a second edge statement cannot conflict; rendering of location and variable text. Whole-program neutrality (C15_full) is stated, not proved; it is checked on every generated case by running plain and debug configurations in both modes on the real code (success must coincide, stripped graphs equal) and comparing each with the model (which fixes the debug attribute values).",
+            "DESIGN.md section 7, C15"),
+    "C20": ("Lean 4 theorems on the error-context algebra and on context wrapping of every block (all programs), + differential comparison of the complete context chain of every failing run",
+            "Kernel-checked: the four-way with_context algebra (innermost statement context wins, Other is wrapped, Cancelled passes); every error leaving a context-wrapped computation is Cancelled or carries a statement context, for every program; hence every error of a strict block and of a whole strict run (after the globals pre-check) is contexted (C20_strict_errors_contexted); the recorded statement location of a block statement is its own; lazy conflicts name both statements. Tie (hard): for fault-injected and naturally failing programs in both modes the complete chain of contexts (statement, stanza and source locations, node kind of every StatementContext) equals the model's; plus direct checks that the locations name a real stanza and a real node, and that the pretty rendering cites the DSL and source files.",
+            "DESIGN.md section 7, C20"),
 }
 
 NOT_YET = {}
